@@ -639,7 +639,9 @@ def stale_collection_fields(h, classes):
                 cached = getattr(fobj, "_serialize", None)
                 if cached is not None and d in h.defined:
                     cells = [c.cell_contents for c in (cached.__closure__ or ())]
-                    if h.nsf[d + "_F"].serialize not in cells:
+                    frozen = [c for c in cells if callable(c) and not isinstance(c, type) and not hasattr(c, "items")]
+                    # (no frozen function in the closure: the implementation does not cache one - nothing is stale)
+                    if frozen and h.nsf[d + "_F"].serialize not in frozen:
                         out.append((n, fd["name"]))
     return out
 
